@@ -50,6 +50,7 @@ func checkC01(c *Ctx, r *Report) {
 	base32Agreement(c, r, "C01.R2.base32-encoding", "NSEC3 records whose hash length is not a multiple of five octets unpack to text the packer refuses (or the other way round)")
 	optionCodes(c, r, "C01.R4.option-codes")
 	hintWidth(c, r, "C01.R4.hint-width")
+	round12(c, r, "C01")
 }
 
 // sideStructs are the hand-written wire-format structs with their packers.
